@@ -53,11 +53,11 @@ func jStr(v any) string {
 
 // MatchCtx carries what time-dependent comparisons need.
 type MatchCtx struct {
-	T0        int64 // unix seconds; model time 1000000 (ms) maps to T0*1000 ms
+	T0        int64 // unix milliseconds that model time 1000000 (ms) maps to
 	ElapsedMs int64 // real milliseconds since T0 when the reply was read
 }
 
-func (m *MatchCtx) absMs(model int64) int64 { return m.T0*1000 + model - 1000000 }
+func (m *MatchCtx) absMs(model int64) int64 { return m.T0 + model - 1000000 }
 
 // substTime replaces the symbolic absolute-time arguments "@T:<model ms>" / "@M:<model ms>"
 // by real epoch seconds / milliseconds.
@@ -188,6 +188,17 @@ func matchReply(exp J, obs *Reply, ctx *MatchCtx) bool {
 		return isSubseq(obs.Str, jBytes(exp["a"])) && isSubseq(obs.Str, jBytes(exp["b"]))
 	case "dead":
 		return false // only ever matched through the "no reply" path
+	case "hello":
+		// HELLO reply: a map (RESP3) or flat array (RESP2) of server properties; "proto" must be the negotiated version
+		if !isArrayLike(obs) && obs.Kind != '%' {
+			return false
+		}
+		for i := 0; i+1 < len(obs.Elems); i += 2 {
+			if string(obs.Elems[i].Str) == "proto" {
+				return obs.Elems[i+1].Kind == ':' && obs.Elems[i+1].Int == jInt(exp["proto"])
+			}
+		}
+		return false
 	case "umap":
 		want := jList(exp["p"])
 		pairs, ok := obsPairs(obs)
@@ -327,7 +338,7 @@ func deadlineOk(mode string, wantMs, gotMs int64, ctx *MatchCtx, secondsUnit boo
 	case "rel":
 		return d >= -1002 && d <= ctx.ElapsedMs+1002
 	case "sec":
-		return d >= -1 && d < 1000
+		return d > -1000 && d < 1000
 	default:
 		if secondsUnit {
 			return d > -1000 && d <= 0 // EXPIRETIME truncates a millisecond deadline
